@@ -666,3 +666,30 @@ mod tests {
         assert!(is_candidate(m));
     }
 }
+
+#[cfg(feature = "verif-hooks")]
+impl RegexMatcherBuilder {
+    /// Verification hook: the intermediate values of `build_many` (same
+    /// calls, in the same order, on the same configuration).
+    pub fn verif_build_parts<P: AsRef<str>>(
+        &self,
+        patterns: &[P],
+    ) -> Result<crate::verif::BuildParts, Error> {
+        let fixed_strings = self.config.verif_is_fixed_strings(patterns);
+        let mut chir = self.config.build_many(patterns)?;
+        if chir.config().whole_line {
+            chir = chir.into_whole_line();
+        } else if chir.config().word {
+            chir = chir.into_word();
+        }
+        let regex = chir.to_regex()?;
+        let inner = InnerLiterals::new(&chir, &regex);
+        Ok(crate::verif::BuildParts {
+            fixed_strings,
+            hir: chir.hir().clone(),
+            accelerated: regex.is_accelerated(),
+            inner_literals: inner.verif_seq().clone(),
+            line_terminator: chir.line_terminator(),
+        })
+    }
+}
